@@ -11,12 +11,18 @@ against the real libc):
 
 * `fopen(mode)`: `r` needs the file, `w` creates/truncates, `a` creates and always writes at the end,
   `+` adds the other direction; the `b`/`t` letters make no difference (POSIX).
-* an output stream delivers every byte passed to `fwrite`, in order, at the current position, at the
-  latest when it is closed (the model writes through at once; the protocol only looks at a file after the
-  writer is closed).
-* `fgets(buf, n, f)` stores at most `n-1` bytes, stops after the first LF, returns NULL iff it stored
-  nothing because the end of the file was reached, and sets the end-of-file indicator exactly when it
-  ran out of bytes before LF / before `n-1` bytes.
+* an output stream delivers every byte passed to `fwrite`, in order, at the current position, when it is
+  flushed or closed.  **The model has no stdio buffer: it writes through at once.**  So what the model says
+  about an object that is still open for writing is true of the code only because every observation path of
+  such an object flushes it first (`size()`, `content()`, `text()`, `lines()`, `firstBytes()`, `File::copy`,
+  `File::move`, `open()` of an open object: shape-checked by `translate()`), and the correspondence check
+  compares those paths on real files (`xputread`, `xobjcopy`, `xreopen`, h-operations); the theorems about
+  open writers cannot tell the code before the repairs ae75f36 / b3be5cd / a48095a from the code after them.
+* `fgets(buf, n, f)` stores at most `n-1` bytes, stops after the first LF, returns NULL when it stored
+  nothing — at the end of the file, or because the stream cannot be read (opened for writing): then the
+  error indicator is set instead — and sets the end-of-file indicator exactly when it ran out of bytes
+  before LF / before `n-1` bytes; `fread` of at least one byte on such a stream also fails with the error
+  indicator set; `fseek` does not clear it.
 * `fread(p, 1, n, f)` returns the next `min n remaining` bytes and sets the indicator iff fewer than `n`
   were left; `feof` reads the indicator; `fseek` clears it.
 * `rename` replaces the destination atomically and fails with `EXDEV` across devices.
@@ -342,12 +348,13 @@ def decimal (i : Int) : Bytes := if i < 0 then 45 :: decDigits i.natAbs else dec
 def le32 (n : Nat) : Bytes :=
   [UInt8.ofNat n, UInt8.ofNat (n >>> 8), UInt8.ofNat (n >>> 16), UInt8.ofNat (n >>> 24)]
 
-/-- `File::read(p, n)` -/
+/-- `File::read(p, n)`: on a stream that cannot be read (opened for writing) `fread` of at least one byte returns 0
+    with the error indicator set (a request for 0 bytes touches nothing) -/
 def hread (h : Handle) (n : Nat) : Bytes × Handle :=
   if h.sm.canRead then
     let r := fread n h.rs
     (r.1, { h with rs := r.2 })
-  else ([], h)
+  else ([], if n = 0 then h else { h with err := true })
 
 /-- `TextFile::readLine(char)` through an open object: on a stream that cannot be read (opened for writing) the first
     `read` fails — the error indicator is set — and the empty string is returned at once -/
